@@ -1,4 +1,4 @@
-import JaqalProofs.Lemmas.RunModel
+import JaqalProofs.Props.C05Class
 import JaqalProofs.Props.C02
 /-!
 # C16 — failures are JaqalErrors with a position; no crashes, hangs or sticky state
@@ -11,15 +11,26 @@ in particular NOT `Err.other _` (a foreign exception class) and NOT `Err.hang` (
 ## What is proved
 
 * **`C16_total_partial`** — for every text, configuration and override list, every failure of `runModel` is `Good16`, GIVEN the
-  three named hypotheses below.  Proved without hypotheses, for ALL inputs, and composed here:
+  two named hypotheses below.  Proved without hypotheses, for ALL inputs, and composed here:
   - the parser fails with its own `parseError line col` only (`C02_no_fuel_error` inside `parseText`) and the builder with
     `JaqalError` / `ImportError` only (`C16_parse_build_total`): `parseProgram_class`;
-  - `expand_subcircuits` fails with `JaqalError` only (`C09_total_class`; a built circuit's body is a block: `parseProgram_body`);
+  - every circuit built from text is TYPED (`built_typed`, `Lemmas/BuiltTyped.lean`: every gate argument, count and register
+    is a number, a numeric let constant, a parameter, a register sized and sliced by ints or integer constants, or a qubit of
+    such a register / of a parameter with an int, integer-constant or parameter index): `parseProgram_typed`;
+  - `expand_subcircuits` fails with `JaqalError` only (`C09_total_class`; a built circuit's body is a block: `parseProgram_body`)
+    and keeps the circuit typed (`expandSubcircuits_typed`);
+  - `fill_in_let` fails with `JaqalError` / `ImportError` only, for every override list (`C05_total_class`, `Props/C05Class.lean`:
+    the visitors on a typed circuit, `C05_letSx_class`, and the rebuild, `rebuild_total` — `C16_builder_total` for the shapes the
+    visitors write): `fillInClass_all`;
   - `expand_macros` fails with `JaqalError` only on a `WellFormed` circuit (`C04_total_class`);
-  - `DiscoverSubcircuits`' bracket errors are `JaqalError`s; `get_n_qubits` fails with `JaqalError` only; the allocation
-    fails with `JaqalError` only; `TraceSerializer` does not raise on a discovered trace (`C03_serialize`) and yields only gates
-    of the program, so the gate table is never left (`segment_gks`, `skeleton_ids`); the walk of `execute()` terminates without
-    raising on every discovered trace list with the static fuel `fuelBound` (`C08_terminates`): `execute_class`.
+  - the executing stage on a flat typed circuit (`flatT_execClass`, `Lemmas/RunModelExec.lean`): `DiscoverSubcircuits`' bracket
+    errors, the used-qubit walk with its disjointness checks (`checkDisjoint_class`: enough fuel, no foreign class),
+    `resolve_qubit` / `resolve_size` on registers sized and sliced by ints (`resolveReg_class`, `resolveQubit_class`),
+    `get_n_qubits`, the size limit and the allocation, the emulator's handling of classical / qubit / register arguments
+    (`gateToken_class`) fail with `JaqalError` only; `TraceSerializer` does not raise on a discovered trace (`C03_serialize`)
+    and yields only gates of the program, so the gate table is never left (`segment_gks`, `skeleton_ids`); the walk of
+    `execute()` terminates without raising on every discovered trace list with the static fuel `fuelBound` (`C08_terminates`):
+    `execute_class`.
 * **`C16_pos_partial`** (same hypotheses; `C16_pos_parse` for the parsing entry point needs none; full statement `C16_pos_full`) —
   a `JaqalParseError` of `runModel` is the parser's, and its position is `("EOF", 0)` or the line and column of a
   token start of the text / of the character the lexer refuses (`C02_error_pos_partial`).
@@ -30,20 +41,18 @@ in particular NOT `Err.other _` (a foreign exception class) and NOT `Err.hang` (
 
 ## What is NOT proved (named hypotheses of `C16_total_partial`; the full statement is `C16_total_full`)
 
-* `FillInClass` — `fill_in_let` applied to the image under `expand_subcircuits` of a built circuit fails with `JaqalError` only.
-  (No `C05_total_class` exists yet.  Missing lemma: `Builder.build` is `Total` on the S-expressions `FillIn.letSx` produces —
-  `C16_builder_total` covers parser-shaped input only, and `letSx` embeds already-built `Val`s — plus `letVal`'s own classes.)
-* `BuiltWellFormed` — the circuit `fill_in_let` returns is `ExpandMacros.WellFormed`.  (Missing lemma: `build cfg e = .ok c →
-  WellFormed c` for the inputs above: gate statements are named after their definitions and carry one builder-made argument per
-  parameter (`callDef_shape`, `StmtKnown`), macros call earlier macros only (`NamesValid`), registers are `regBuilt` (`ValT/RegT`).)
-* `ExecClassOf` — for the expanded circuit: loop counts are Python ints, the used-qubit walk and `resolve_qubit` fail with
-  `JaqalError` only, the register size is a non-negative int (`ExecClass`).  (Missing: the same invariants pushed through
-  `expand_macros`: `C05_no_consts` + `C04_no_calls` give the shapes, a class theorem for `UsedQubits.usedStmtF` does not exist.)
-  This hypothesis is FALSE for gate sets in which a gate with a unitary takes a REGISTER parameter: the real emulator raises
-  `TypeError` (`C16_register_gate_typeerror`, a finding).
+* `BuiltWellFormed` — the circuit `fill_in_let` returns is `ExpandMacros.WellFormed`.  The gate half is proved for every output of
+  `build` (`built_gateShape`, agent c10); the value half (`okVal`, `goodVal`) follows from the typing of `letVal`'s results
+  (`letVal_typed`) through `fillInLet_rebuilt`; missing: counts are `isIndexLike` (the builder's `validateCount`, not carried by
+  `StmtIn` yet) and `inScope` (a macro body calls earlier macros only — an invariant of the gate table during the build).
+* `FlatOf` — the expanded circuit is FLAT and TYPED (`FlatT`, `Lemmas/RunModelExec.lean`, a decidable structural predicate).
+  Missing: the typing carried through `substVal` (`expand_macros`), the scoping of macro parameters (every parameter in a macro
+  body is one of the macro's own, so none survives the expansion), and that a loop body is a block (true of the grammar, not of
+  the looser `ParserSx`).
 
 Each hypothesis is checked on every generated program by the differential test: a violation makes `run_model` answer a class that
-is not `JaqalError`, which the real code (oracle `only_jaqalerror_or_importerror`) does not produce.
+is not `JaqalError`, which the real code (oracle `only_jaqalerror_or_importerror`) does not produce; `stageB` below decides both
+for a given text (`C16_total_checked`).
 -/
 namespace Jaqal.RunModel
 open Jaqal Jaqal.Builder Jaqal.Parser
@@ -52,6 +61,24 @@ open Jaqal Jaqal.Builder Jaqal.Parser
 def FillInClass (cfg : Config) (ov : List (String × Num)) (txt : String) : Prop :=
   ∀ c c1, Pipeline.parseProgram cfg txt = .ok c → ExpandSubcircuits.expandSubcircuits none none c = .ok c1 →
     Cls Good (FillIn.fillInLet ov c1)
+
+/-- what a text builds to is typed (`built_typed`: the builder, any configuration) -/
+theorem parseProgram_typed {cfg : Config} {txt : String} {c : Circuit} (h : Pipeline.parseProgram cfg txt = .ok c) :
+    FillIn.TypedC c := by
+  unfold Pipeline.parseProgram Pipeline.parseSx at h
+  cases hp : Parser.parseText txt with
+  | error pe => rw [hp] at h; cases h
+  | ok sx =>
+    rw [hp] at h
+    exact parseBuild_typed cfg sx c (parseText_parserSx hp) h
+
+/-- **`FillInClass` holds for every text, configuration and override list** (`C05_total_class`: the visitors on the typed
+circuit `built_typed` / `expandSubcircuits_typed` provide, and the rebuild `rebuild_total`) -/
+theorem fillInClass_all (cfg : Config) (ov : List (String × Num)) (txt : String) : FillInClass cfg ov txt := by
+  intro c c1 hc hc1
+  have ht1 := ExpandSubcircuits.expandSubcircuits_typed (parseProgram_typed hc) hc1
+  obtain ⟨stmts, _, _, _, _, _, rfl⟩ := ExpandSubcircuits.expand_ok hc1
+  exact FillIn.C05_total_class ov _ ht1 ⟨_, _, _, rfl⟩
 
 /-- … and what it returns is well formed in the sense of `expand_macros` -/
 def BuiltWellFormed (cfg : Config) (ov : List (String × Num)) (txt : String) : Prop :=
@@ -63,9 +90,16 @@ def BuiltWellFormed (cfg : Config) (ov : List (String × Num)) (txt : String) : 
 theorem C16_well_formed_op (c : Circuit) : WF.wellFormed c = true ↔ ExpandMacros.WellFormed c = true := by
   rw [WF.wellFormed_eq]
 
-/-- the expanded circuit satisfies `ExecClass` -/
+/-- the expanded circuit is flat and typed -/
+def FlatOf (cfg : Config) (ov : List (String × Num)) (txt : String) : Prop :=
+  ∀ c x, Pipeline.parseProgram cfg txt = .ok c → expandAll ov c = .ok x → FlatT x = true
+
+/-- the expanded circuit satisfies `ExecClass` (a consequence of `FlatOf`: `flatT_execClass`) -/
 def ExecClassOf (cfg : Config) (ov : List (String × Num)) (txt : String) : Prop :=
   ∀ c x, Pipeline.parseProgram cfg txt = .ok c → expandAll ov c = .ok x → ExecClass x
+
+theorem FlatOf.execClassOf {cfg : Config} {ov : List (String × Num)} {txt : String} (h : FlatOf cfg ov txt) :
+    ExecClassOf cfg ov txt := fun c x hc hx => flatT_execClass (h c x hc hx)
 
 theorem expandAll_class {cfg : Config} {ov : List (String × Num)} {txt : String} {c : Circuit}
     (hc : Pipeline.parseProgram cfg txt = .ok c) (hf : FillInClass cfg ov txt) (hw : BuiltWellFormed cfg ov txt) :
@@ -80,12 +114,14 @@ theorem expandAll_class {cfg : Config} {ov : List (String × Num)} {txt : String
     obtain ⟨r, rfl⟩ := ExpandMacros.C04_total_class false c2 (hw c c1 c2 hc hc1 hc2) e he
     exact Good.jaqal r
 
-/-- **C16 (totality), relative to the three named lemmas.** Whatever the text, the gate set, the autoload switch, the import
+/-- **C16 (totality), relative to the two named lemmas.** Whatever the text, the gate set, the autoload switch, the import
 function and the override list: the model of `run_jaqal_circuit(parse_jaqal_string(text))` returns a result or fails with
 JaqalError, JaqalParseError or ImportError — never with another exception class, never without terminating. -/
 theorem C16_total_partial (cfg : Config) (ov : List (String × Num)) (txt : String)
-    (hf : FillInClass cfg ov txt) (hw : BuiltWellFormed cfg ov txt) (hx : ExecClassOf cfg ov txt) :
+    (hw : BuiltWellFormed cfg ov txt) (hfl : FlatOf cfg ov txt) :
     ∀ e, runModel cfg ov txt = .error e → Good16 e := by
+  have hf := fillInClass_all cfg ov txt
+  have hx := hfl.execClassOf
   show Cls Good16 (runModel cfg ov txt)
   unfold runModel
   refine Cls.bind (parseProgram_class cfg txt) (fun c hc => ?_)
@@ -93,18 +129,12 @@ theorem C16_total_partial (cfg : Config) (ov : List (String × Num)) (txt : Stri
   refine Cls.bind ((expandAll_class hc hf hw).mono (fun _ => Good.good16)) (fun x hxx => ?_)
   exact (execute_class x (hx c x hc hxx)).mono (fun _ => Good.good16)
 
-/-- no native gate that has a unitary takes a register (for such a gate the real emulator raises `TypeError`) -/
-def EmulableNatives (cfg : Config) : Prop :=
-  (∀ gs, cfg.natives = some gs → ∀ g ∈ gs, g.hasUnitary = true → ∀ p ∈ g.params, p.2 ≠ Kind.register) ∧
-  (∀ m gs, cfg.imports m = some gs → ∀ g ∈ gs, g.hasUnitary = true → ∀ p ∈ g.params, p.2 ≠ Kind.register)
-
-/-- The full statement, NOT proved: `C16_total_partial` without its three hypotheses (for gate sets the emulator can handle).
-What is missing is listed in the header: `FillInClass`, `BuiltWellFormed` and `ExecClassOf` as consequences of the invariants of
-`Builder.build` (`ValT`/`RegT`, `StmtKnown`, `NamesValid`, `ValOK`), carried through `expand_subcircuits`, `fill_in_let` and
-`expand_macros`. -/
+/-- The full statement, NOT proved: `C16_total_partial` without its two hypotheses, for every gate set (since the repair of
+the emulator a gate that takes a register is emulated too).  What is missing is listed in the header:
+`BuiltWellFormed` and `FlatOf` as consequences of the invariants of `Builder.build` (`ValT`/`RegT`, `StmtKnown`, `NamesValid`,
+`ValOK`), carried through `expand_subcircuits`, `fill_in_let` and `expand_macros`. -/
 def C16_total_full : Prop :=
-  ∀ (cfg : Config) (ov : List (String × Num)) (txt : String), EmulableNatives cfg →
-    ∀ e, runModel cfg ov txt = .error e → Good16 e
+  ∀ (cfg : Config) (ov : List (String × Num)) (txt : String) (e : Err), runModel cfg ov txt = .error e → Good16 e
 
 /-- a good error is neither a foreign class nor non-termination -/
 theorem C16_no_crash_no_hang {e : Err} (h : Good16 e) : (∀ c, e ≠ .other c) ∧ e ≠ .hang := h.not_other
@@ -128,10 +158,11 @@ theorem parseText_eof_col {txt : String} {c : Nat} (h : parseText txt = .error (
 /-- **C16 (position).** A syntax error of the pipeline — including input that ends too early — is the parser's error, and it
 carries `("EOF", 0)` or the line and column of a place of THIS text where a token starts or where lexing stops. -/
 theorem C16_pos_partial (cfg : Config) (ov : List (String × Num)) (txt : String) (l : Option Nat) (c : Nat)
-    (h : runModel cfg ov txt = .error (.parse l c)) (hf : FillInClass cfg ov txt) (hw : BuiltWellFormed cfg ov txt)
-    (hx : ExecClassOf cfg ov txt) :
+    (h : runModel cfg ov txt = .error (.parse l c)) (hw : BuiltWellFormed cfg ov txt) (hfl : FlatOf cfg ov txt) :
     parseText txt = .error (.parseError l c) ∧
     ((l = none ∧ c = 0) ∨ ∃ l', l = some l' ∧ Jaqal.C02.IsTokenPos txt l' c) := by
+  have hx := hfl.execClassOf
+  have hf := fillInClass_all cfg ov txt
   have hp : Pipeline.parseProgram cfg txt = .error (.parse l c) := by
     unfold runModel at h
     cases hc : Pipeline.parseProgram cfg txt with
@@ -224,34 +255,7 @@ theorem clsB_cls {α : Type} {m : M α} (h : clsB m = true) : Cls Good m := by
   subst he
   exact isGoodB_good h
 
-def sizeIntB (x : Circuit) : Bool :=
-  match x.registers.filter isFundamental with
-  | [.regF _ (.int k)] => decide (0 ≤ k)
-  | [.regF _ _] => false
-  | _ => true
-
-theorem sizeIntB_sizeInt {x : Circuit} (h : sizeIntB x = true) : SizeInt x := by
-  intro n s hf
-  unfold sizeIntB at h
-  rw [hf] at h
-  cases s <;> simp at h
-  exact ⟨_, rfl, h⟩
-
-def execB (x : Circuit) : Bool :=
-  clsB (skeleton x) && clsB (tooLarge x.registers) && clsB (UsedQubits.checkDisjoint x) && sizeIntB x &&
-  (match skeleton x with
-   | .ok (_, tbl) => tbl.all (fun g => clsB (gateToken x.natives g.1 g.2.2))
-   | .error _ => true)
-
-theorem execB_execClass {x : Circuit} (h : execB x = true) : ExecClass x := by
-  simp only [execB, Bool.and_eq_true] at h
-  obtain ⟨⟨⟨⟨h1, h0⟩, h2⟩, h3⟩, h4⟩ := h
-  refine ⟨clsB_cls h1, clsB_cls h0, clsB_cls h2, sizeIntB_sizeInt h3, ?_⟩
-  intro body tbl hs g hg
-  rw [hs] at h4
-  exact clsB_cls (List.all_eq_true.1 h4 g hg)
-
-/-- the three hypotheses, evaluated on one text -/
+/-- the two hypotheses (and, redundantly, the class of `fill_in_let`), evaluated on one text -/
 def stageB (cfg : Config) (ov : List (String × Num)) (txt : String) : Bool :=
   match Pipeline.parseProgram cfg txt with
   | .error _ => true
@@ -265,14 +269,11 @@ def stageB (cfg : Config) (ov : List (String × Num)) (txt : String) : Bool :=
         ExpandMacros.WellFormed c2 &&
         (match ExpandMacros.expandMacros false c2 with
          | .error _ => true
-         | .ok x => execB x)
+         | .ok x => FlatT x)
 
 theorem stageB_hyps {cfg : Config} {ov : List (String × Num)} {txt : String} (h : stageB cfg ov txt = true) :
-    FillInClass cfg ov txt ∧ BuiltWellFormed cfg ov txt ∧ ExecClassOf cfg ov txt := by
-  refine ⟨?_, ?_, ?_⟩
-  · intro c c1 hc hc1 e he
-    simp only [stageB, hc, hc1, he] at h
-    exact isGoodB_good h
+    BuiltWellFormed cfg ov txt ∧ FlatOf cfg ov txt := by
+  refine ⟨?_, ?_⟩
   · intro c c1 c2 hc hc1 hc2
     simp only [stageB, hc, hc1, hc2, Bool.and_eq_true] at h
     exact h.1
@@ -281,26 +282,29 @@ theorem stageB_hyps {cfg : Config} {ov : List (String × Num)} {txt : String} (h
     obtain ⟨c1, hc1, hx⟩ := bind_ok hx
     obtain ⟨c2, hc2, hx⟩ := bind_ok hx
     simp only [stageB, hc, hc1, hc2, hx, Bool.and_eq_true] at h
-    exact execB_execClass h.2
+    exact h.2
 
 /-- `C16_total_partial` with its hypotheses replaced by their evaluation on the text at hand -/
 theorem C16_total_checked (cfg : Config) (ov : List (String × Num)) (txt : String) (h : stageB cfg ov txt = true) :
     ∀ e, runModel cfg ov txt = .error e → Good16 e :=
-  let ⟨hf, hw, hx⟩ := stageB_hyps h
-  C16_total_partial cfg ov txt hf hw hx
+  let ⟨hw, hx⟩ := stageB_hyps h
+  C16_total_partial cfg ov txt hw hx
 
-/-- non-vacuity of `C16_total_partial` / `C16_pos_partial`: the three hypotheses hold for `let n 2; register q[n]; map a q[0:n];
-macro m x y { < X x | X y > }; loop 2 { subcircuit n { m a[0] q[1] } }; prepare_all; X a[1]; measure_all` (with an override) … -/
+/-- non-vacuity of `C16_total_partial` / `C16_pos_partial`: the hypotheses hold for `let n 2; register q[n]; map a q[0:n];
+macro m x y { < X x | X y > }; loop 2 { subcircuit n { m a[0] q[1] } }; prepare_all; X a[1]; measure_all` (with an override) -/
 example : stageB cfgX [("n", .int 2)]
     "let n 2\nregister q[n]\nmap a q[0:n]\nmacro m x y { < X x | X y > }\nloop 2 { subcircuit n { m a[0] q[1] } }\nprepare_all; X a[1]; measure_all\n"
     = true := by decide +kernel
 
-/-- … and fail, as they must, for the register-taking gate of the finding below -/
-example : stageB cfgRG [] "register q[2]\nprepare_all\nRG q\nmeasure_all\n" = false := by decide +kernel
-
 /-- a program that runs: one subcircuit, visited twice -/
 example : (match runModel cfgX [] "register q[2]\nloop 2 { prepare_all; X q[1]; measure_all }\n" with
   | .ok s => s.subcircuits == 1 && s.visits == [0, 0] | _ => false) = true := by decide +kernel
+
+/-- a gate that takes a whole register is applied to the register's qubits in order (the emulator raised `TypeError` here
+until it was repaired today); the hypotheses hold for this program too -/
+example : (match runModel cfgRG [] "register q[2]\nprepare_all\nRG q\nmeasure_all\n" with
+  | .ok s => s.traces == [["prepare_all", "RG r0,1", "measure_all"]] | _ => false) = true := by decide +kernel
+example : stageB cfgRG [] "register q[2]\nprepare_all\nRG q\nmeasure_all\n" = true := by decide +kernel
 
 /-- failures of the stages, each `Good16`: a truncated text (`("EOF", 0)`), an illegal character (line 1, column 7), a gate
 outside a subcircuit (JaqalError of the executing stage), a pulse module that cannot be found (ImportError) -/
@@ -313,13 +317,6 @@ example : (match runModel cfgX [] "register q[2]\nX q[1]\n" with | .error (.jaqa
 example : (match runModel { cfgX with autoload := true } [] "from nosuch.mod usepulses *\nregister q[2]\n" with
   | .error .importErr => true | _ => false) = true := by decide +kernel
 
-/-- **Finding.** With a gate set in which a gate that has a unitary takes a register, a well-formed program makes the emulator
-raise `TypeError` (`Register.resolve_qubit()` is called without its index, `emulator/unitary.py`): the totality statement does
-not hold for arbitrary gate sets (hence `EmulableNatives` in `C16_total_full`, and `ExecClassOf` fails for this program). -/
-theorem C16_register_gate_typeerror :
-    (match runModel cfgRG [] "register q[2]\nprepare_all\nRG q\nmeasure_all\n" with
-     | .error (.other "TypeError") => true | _ => false) = true := by decide +kernel
-
 end Jaqal.RunModel
 
 #print axioms Jaqal.RunModel.C16_total_partial
@@ -329,7 +326,6 @@ end Jaqal.RunModel
 #print axioms Jaqal.RunModel.C16_deterministic
 #print axioms Jaqal.RunModel.C16_history_perm
 #print axioms Jaqal.RunModel.C16_history_interleave
-#print axioms Jaqal.RunModel.C16_register_gate_typeerror
 #print axioms Jaqal.RunModel.C16_total_checked
 #print axioms Jaqal.RunModel.C16_well_formed_op
 #print axioms Jaqal.RunModel.C16_no_crash_no_hang
